@@ -235,3 +235,8 @@ Example C03_source_parse_example :
       [(bs "NM", GoSem.AnyInt 2); (bs "XF", GoSem.AnyFloat (bs "1.5")); (bs "XA", GoSem.AnyByte 99)], false)
   /\ ImpGen.imp_sam_parseLine o [bs "q"; bs "16"] = GoSem.Ret (ImpProofsN.sam_zero, true).
 Proof. vm_compute. split; reflexivity. Qed.
+
+Theorem C03_marshal_is_source : forall o r,
+  ImpGen.imp_sam_SAM_MarshalText o (ImpProofsN.sam_of r) = GoSem.Ret (Bio.Model.Sam.write o r, false).
+Proof. exact ImpProofsN.imp_SAM_MarshalText. Qed.
+Print Assumptions C03_marshal_is_source.
